@@ -157,20 +157,23 @@ def make_trace(tid, rng, nops=25, **opt):
             sub = ["A" if (al[c] >> b) & 1 else "Z" if (ze[c] >> b) & 1 else "U" for b in range(32)]
         l2[c] = {"t": t[c], "h": h[c], "sub": sub}
     img = {"ext": ext, "datafile": datafile, "l2n": l2_real, "s": S, "l1": l1, "l2": l2, "back": back * S if back >= 0 else -1, "size": nc * S}
+    fid, dfid, csalt = rng.randrange(0, 0x48), rng.randrange(0x48, 0x90), rng.randrange(1, 1 << 18) * 4096   # identity of this image
     vf, dvf, info = enc_qcow2.build(img, cluster_bits=cb, K=1, version=3 if (ext or datafile) else rng.choice([2, 3]),
                                     header_length=rng.choice([104, 112]), copied=rng.random() < 0.7, size_bytes=size_b,
                                     comp_maximal=rng.random() < 0.3, comp_level=rng.choice([6, 6, 0, 1]),
                                     datafile_ext=rng.random() < 0.6, backing_fmt_ext=rng.random() < 0.7,
                                     # header fields a reader must not let influence the mapping
                                     hdr_extra={"compat": rng.choice([0, 1, 0xFF00]), "autoclear": rng.choice([0, 1, 3]), "refcount_order": rng.choice([4, 0, 6]),
-                                               "refcount_clusters": rng.choice([1, 0, 7])})
+                                               "refcount_clusters": rng.choice([1, 0, 7])},
+                                    file_id=fid, data_fid=dfid, csalt=csalt)
     blen = None
     bpad = 0
     if back >= 0:
         blen = back * cs - (rng.choice([0, 0, cs // 32, cs // 2]) if (ext and back < nc) else 0)
         blen = max(cs, blen)
     backing = (lambda: disk.ParentStream(blen)) if back >= 0 else None
-    b = disk.Built(open=lambda: _open(vf, dvf, backing), cell=cellB, size=size_b, bases={0: info["data_base"], 1: 0}, has_parent=back >= 0)
+    b = disk.Built(open=lambda: _open(vf, dvf, backing), cell=cellB, size=size_b, bases={0: info["data_base"], 1: 0}, has_parent=back >= 0,
+                   fids={0: fid, 1: dfid}, csalt=csalt)
     s = b.open()
     fresh = b.open()
     rec = record.Recorder(s, size_b, probe=fresh.readoffset, align=opt.get("align"))
